@@ -1033,11 +1033,16 @@ bool ReplaceContent(const string& file_dst, const string& new_content,
   }
 #endif
 
+#ifdef _WIN32
+  // rename() does not replace an existing file on Windows.
   if (platformAwareUnlink(file_dst.c_str()) < 0) {
     *err = strerror(errno);
     return false;
   }
+#endif
 
+  // On POSIX rename() replaces file_dst atomically: a crash leaves either the
+  // old or the new content, never neither.
   if (rename(new_content.c_str(), file_dst.c_str()) < 0) {
     *err = strerror(errno);
     return false;
